@@ -83,5 +83,14 @@ def run(chk):
            bool(gate) and not any("where-index" in (e.left.tags | e.right.tags) for e in gate),
            derived="gate operand passes through an index/mask selection" if any("where-index" in (e.left.tags | e.right.tags) for e in gate) else "whole window",
            loc=gate[0].loc if gate else r.fi.loc(), inconclusive=(not gate and partly))
+    # the gate is "reaches 0.025 g": a window whose peak is exactly at the gate counts.  Every comparison of the gate quantity is read as
+    # `peak - gate OP 0`; the branch that contributes nothing is `< 0`, the branch that contributes is `>= 0`
+    gate_nodes = list({id(e.node): e for e in gate}.values())
+    for e in gate_nodes:
+        n = e.node
+        if isinstance(n, ast.Compare) and len(n.ops) == 1 and isinstance(n.comparators[0], ast.Constant) and n.comparators[0].value == 0:
+            op_ = type(n.ops[0]).__name__
+            chk.ob("R-CAVDP", c + "[gate-edge: %s]" % " ".join(ast.unparse(n).split()), "the gate is inclusive: peak - gate < 0 contributes nothing, >= 0 contributes",
+                   op_ in ("Lt", "GtE"), derived="peak - gate %s 0" % op_, loc=e.loc, stmt=e.stmt)
     chk.floor("R-IM-TYPE", 70)
     chk.floor("R-CAVDP", 8)
